@@ -199,36 +199,6 @@ theorem formsdict_tables_pinned :
     (∀ p ∈ Gen.hpAccessorProbes, fdAttrs.contains p.1.toList = p.2.1 ∧ cdAttrs.contains p.1.toList = p.2.2) := by
   refine ⟨by decide, by decide +kernel, by decide +kernel, by decide +kernel⟩
 
-/-- what every accessor answers on the dictionary a form with the submitted pairs `ps` reads as -/
-theorem accessors_on_group (ps : List (Str × Str)) (k : Str) (dflt : Option Val) :
-    fdGetitem (group ps) k = (if k ∈ ps.map (·.1) then .ok (valOf (valuesOf k ps)) else .error .keyError) ∧
-    fdGet (group ps) k dflt = (if k ∈ ps.map (·.1) then some (valOf (valuesOf k ps)) else dflt) ∧
-    fdContains (group ps) k = decide (k ∈ ps.map (·.1)) ∧
-    fdKeys (group ps) = firstKeys ps ∧ fdLen (group ps) = (firstKeys ps).length ∧ fdCopy (group ps) = group ps := by
-  have hg := group_get? ps k
-  have hiff := valuesOf_eq_nil_iff ps k
-  refine ⟨?_, ?_, ?_, group_keys ps, ?_, rfl⟩
-  · unfold fdGetitem
-    rw [hg]
-    by_cases h : k ∈ ps.map (·.1)
-    · have : ¬ valuesOf k ps = [] := fun e => (hiff.mp e) h
-      simp [h, this]
-    · simp [h, hiff.mpr h]
-  · unfold fdGet
-    rw [hg]
-    by_cases h : k ∈ ps.map (·.1)
-    · have : ¬ valuesOf k ps = [] := fun e => (hiff.mp e) h
-      simp [h, this]
-    · simp [h, hiff.mpr h]
-  · unfold fdContains
-    rw [hg]
-    by_cases h : k ∈ ps.map (·.1)
-    · have : ¬ valuesOf k ps = [] := fun e => (hiff.mp e) h
-      simp [h, this]
-    · simp [h, hiff.mpr h]
-  · unfold fdLen
-    rw [← group_keys ps, List.length_map]
-
 /-- **formsdict_get_after_roundtrip**: for every list of pairs with non-empty keys, encoded with `quote_plus` or `quote`
 and sent as the query string, as an urlencoded body, or read through `params`: item access, `get` (with any default) and
 `in` on the `FormsDict` the request hands out return, for a key that was sent, its value as a string if it was sent once
